@@ -71,6 +71,11 @@ def gen_case(rng, cid):
     nrem = 0
     for _ in range(rng.randint(1, 5)):
         r = rng.random()
+        if nrem >= 1 and rng.random() < 0.22:
+            # the SAME oracle node at two nesting depths of one tree: the current term combined with an earlier
+            # stage of itself (the bare oracle, or the oracle under fewer remaps), in either operand order
+            steps.append(("bin2", rng.choice(BIN), rng.randrange(4), rng.random() < 0.5))
+            continue
         if r < 0.5:
             steps.append(("remap", coord(0), coord(1), coord(2)))
             nrem += 1
@@ -93,7 +98,14 @@ def finish_case(p, rng, emit, o, e, steps, crease_axis=None):
     """builds the context over the oracle and over the plain expression and emits the comparison commands"""
     def build(hole):
         cur = hole
+        vals = [hole]
         for st in steps:
+            if st[0] == "bin2":
+                other = vals[st[2] % len(vals)]
+                cur = emit(f"bin {st[1]} {other if st[3] else cur} {cur if st[3] else other}", "tree")
+                vals.append(cur)
+                continue
+            vals.append(cur)
             if st[0] == "remap":
                 cur = emit(f"remap {cur} {st[1]} {st[2]} {st[3]}", "tree")
             elif st[0] == "bin":
